@@ -247,7 +247,7 @@ def table_directed_histories():
     return hs
 
 
-MUT_KINDS = ["null", "scalar:x", "scalar:-1", "scalar:99999999999", "scalar:", "emptylist", "emptymap", "list1", "map1", "listmap"]
+MUT_KINDS = ["null", "scalar:x", "scalar:-1", "scalar:0", "scalar:1", "scalar:99999999999", "scalar:", "emptylist", "emptymap", "list1", "map1", "listmap"]
 SHORT_HISTORY = ["new", "schema {sid}", "context", "key 110 0", "key 105 0", "context", "key 104 0", "key 97 0", "key 111 0", "context",
                  "list 0 20", "page +", "context", "page -", "highlight 1", "select_page 1", "context", "key 32 0", "read_commit",
                  "key 97 0", "key 98 0", "key 65288 0", "key 65307 0", "key 46 0", "context", "key 49 0", "key 58 0", "key 97 0",
